@@ -314,6 +314,12 @@ class IrToWasmCompiler:
         if isinstance(shape, relooper.BasicShape):
             ir_block = self.rmap[shape.content]
             self.do_block(ir_block)
+            if isinstance(ir_block.last_instruction, ir.CJump):
+                # A conditional jump of which both ways lead to the same
+                # block, the outcome of the comparison is not needed:
+                assert self.stack == 1, str(self.stack)
+                self.emit("drop")
+                self.stack -= 1
         elif isinstance(shape, relooper.SequenceShape):
             for sub_shape in shape.shapes:
                 if sub_shape is not None:
